@@ -50,4 +50,15 @@ end
 def envOf (ctx : Ctx) (fn : List Char → List Bytes → Bytes) : Env :=
   { getMatch := fun n => ctx.getMatch n, getKey := ctx.getKey, fn := fn }
 
+/-- What `monitorContext` answers: "" to every look-up. -/
+def emptyCtx : Ctx := ⟨fun _ => [], fun _ => []⟩
+
+/-- The meaning of function names, possibly depending on the match context (user-defined functions read
+    named keys and negative indices of the caller's match). -/
+abbrev Sem := Ctx → List Char → List Bytes → Bytes
+
+/-- The spec environment of a model context under `sem`. -/
+def envC (sem : Sem) (ctx : Ctx) : Env :=
+  { getMatch := fun n => ctx.getMatch n, getKey := ctx.getKey, fn := sem ctx }
+
 end Rare.C09
